@@ -292,7 +292,10 @@ func c05LeastConn(r *vres.Report, maxN int) {
 		// whatever happened earlier)
 		prelude string
 	}
-	variants := []variant{{"equal", 0, ""}, {"equal", 0, "outage"}}
+	// "staggered": under least_connections itself, b0 is ejected for 10 s, b1 five seconds later
+	// for 10 s, a request arrives between the ends of the two windows, and the fill starts when
+	// both are over
+	variants := []variant{{"equal", 0, ""}, {"equal", 0, "outage"}, {"equal", 0, "staggered"}}
 	for _, w := range []string{"descending", "ascending"} {
 		variants = append(variants, variant{w, 0, ""})
 	}
@@ -357,6 +360,17 @@ func c05LeastConn(r *vres.Report, maxN int) {
 								vh.ToolError("switch: %v", err)
 							}
 						}
+						if va.prelude == "staggered" {
+							k.lb.MarkBackendUnhealthy(k.backendByName("b0"), 10*time.Second)
+							k.request("10.0.0.3", nil)
+							s.AdvanceQuiet(5 * time.Second)
+							k.lb.MarkBackendUnhealthy(k.backendByName("b1"), 10*time.Second)
+							k.request("10.0.0.3", nil)
+							s.AdvanceQuiet(6 * time.Second) // b0's window is over, b1's is not
+							k.request("10.0.0.3", nil)
+							s.AdvanceQuiet(5 * time.Second) // both are over
+							evals += 3
+						}
 						// fill every backend to 2 in-flight requests, then release down to the vector
 						var hs []*held
 						for q := 0; q < 2*n; q++ {
@@ -384,7 +398,7 @@ func c05LeastConn(r *vres.Report, maxN int) {
 						got, status = servedIndex(k, "10.0.0.2")
 						evals++
 					})
-					desc := fmt.Sprintf("least_connections n=%d weights=%v in-flight %v (+%d on every backend) ejected-mask=%b%s", n, weightsOf(va.weights, n), vec, va.base, mask, map[string]string{"outage": " after an outage of b0 under round_robin and a switch to least_connections"}[va.prelude])
+					desc := fmt.Sprintf("least_connections n=%d weights=%v in-flight %v (+%d on every backend) ejected-mask=%b%s", n, weightsOf(va.weights, n), vec, va.base, mask, map[string]string{"outage": " after an outage of b0 under round_robin and a switch to least_connections", "staggered": " after outages of b0 and b1 whose windows overlapped and ended 5 s apart, with a request in between"}[va.prelude])
 					if !setupOK {
 						if va.weights == "equal" {
 							c05Viol(r, "C05/least_connections/fill-uneven", fmt.Sprintf("n=%d: 2n overlapping requests from an idle pool did not put 2 on every backend", n), n, nil)
@@ -435,9 +449,20 @@ type c05wInst struct {
 	p      c05wParams
 	events []string
 	ej     map[string]bool
-	listed map[string]int // name -> effective weight
+	until  map[string]time.Duration // end of the unhealthy window of the backends that are out
+	listed map[string]int           // name -> effective weight
 	added  bool
 	out    string
+}
+
+// lapse: the model's windows that are over by now
+func (in *c05wInst) lapse() {
+	for n, u := range in.until {
+		if in.s.Clock() >= u {
+			delete(in.until, n)
+			in.ej[n] = false
+		}
+	}
 }
 
 func (in *c05wInst) LastOutcome() string { return in.out }
@@ -458,21 +483,29 @@ func (in *c05wInst) Step(ev int) *vh.HViol {
 	case strings.HasPrefix(e, "eject:"):
 		name := e[6:]
 		if b := in.k.backendByName(name); b != nil && !in.ej[name] {
-			in.k.lb.MarkBackendUnhealthy(b, 1000*time.Second)
+			in.k.lb.MarkBackendUnhealthy(b, 10*time.Second)
 			in.ej[name] = true
+			in.until[name] = in.s.Clock() + 10*time.Second
 		}
 	case strings.HasPrefix(e, "recover:"):
 		name := e[8:]
 		if b := in.k.backendByName(name); b != nil && in.ej[name] {
-			// the window elapses: emulate by ejecting with a window that is already over
-			in.k.lb.MarkBackendUnhealthy(b, -time.Second)
-			in.ej[name] = false
+			// time passes until this backend's window is over (windows of others that end
+			// earlier are over then, too; the ones that end later go on)
+			if u := in.until[name] + time.Millisecond; u > in.s.Clock() {
+				in.s.AdvanceQuiet(u - in.s.Clock())
+			}
+			in.lapse()
 		}
+	case e == "clock+4s":
+		in.s.AdvanceQuiet(4 * time.Second)
+		in.lapse()
 	case e == "remove:b0":
 		if _, ok := in.listed["b0"]; ok {
 			in.k.lb.RemoveBackend("b0")
 			delete(in.listed, "b0")
 			delete(in.ej, "b0")
+			delete(in.until, "b0")
 		}
 	case e == "add":
 		if !in.added {
@@ -489,7 +522,7 @@ func (in *c05wInst) Fingerprint() string {
 	return in.k.novel() + strategyState(in.k.lb.strategy) + fmt.Sprint(in.ej, in.listed, in.added) + func() string {
 		o := ""
 		for _, b := range in.k.lb.strategy.GetBackends() {
-			o += fmt.Sprint(b.IsHealthy, b.UnhealthyUntil.After(vrt.Now()))
+			o += fmt.Sprint(b.IsHealthy, b.UnhealthyUntil.After(vrt.Now()), in.until[b.Name]-in.s.Clock(), ";")
 		}
 		return o
 	}()
@@ -541,11 +574,13 @@ func c05wSpec(p c05wParams, depth int) vh.HSpec {
 	for i := range p.Weights {
 		ev = append(ev, fmt.Sprintf("eject:b%d", i), fmt.Sprintf("recover:b%d", i))
 	}
-	ev = append(ev, "remove:b0", "add")
+	// (time passes without a window ending: ejections that follow are staggered against the
+	// ones before, their windows overlap and end at different moments)
+	ev = append(ev, "remove:b0", "add", "clock+4s")
 	return vh.HSpec{Name: fmt.Sprintf("wrr-history-%v", p.Weights), KeyPrefix: "C05/weighted_round_robin", Events: ev, Depth: depth, Params: p,
 		New: func(s *vrt.Sched) vh.HInstance {
 			k := newKit(s, kitOpts{Strategy: "weighted_round_robin", N: len(p.Weights), Weights: p.Weights, PassiveThr: 1, Window: 1000})
-			in := &c05wInst{s: s, k: k, p: p, events: ev, ej: map[string]bool{}, listed: map[string]int{}}
+			in := &c05wInst{s: s, k: k, p: p, events: ev, ej: map[string]bool{}, until: map[string]time.Duration{}, listed: map[string]int{}}
 			for i, w := range p.Weights {
 				if w < 1 {
 					w = 1
